@@ -300,6 +300,32 @@ pub fn x25519_small_order() -> Vec<Vec<u8>> {
     out
 }
 
+/// The small-order u values plus p and plus 2p, written as 256-bit little-endian strings *without*
+/// masking bit 255 (the way lists of "keys to reject" are often published). X25519 masks bit 255, so
+/// most of these strings denote ordinary points (v - 19, v - 38): an implementation that rejects by
+/// byte comparison against such a list rejects valid keys.
+pub fn x25519_unmasked_aliases() -> Vec<Vec<u8>> {
+    let p = U::from_be(&unhex("7fffffffffffffffffffffffffffffffffffffffffffffffffffffffffffffed"));
+    let mut out = Vec::new();
+    for b in x25519_small_order().into_iter().step_by(2) {
+        let mut be = b.clone();
+        be.reverse();
+        let v = U::from_be(&be);
+        for k in 1..=2 {
+            let mut x = v;
+            for _ in 0..k {
+                x = x.add(&p).0;
+            }
+            if x.bits() <= 256 {
+                let mut le = x.to_be(32);
+                le.reverse();
+                out.push(le);
+            }
+        }
+    }
+    out
+}
+
 /// Canonical form of an X25519 u-coordinate: bit 255 cleared, reduced modulo 2^255-19
 pub fn x25519_canon(u: &[u8]) -> Vec<u8> {
     let mut v = u.to_vec();
